@@ -52,7 +52,8 @@ pub fn replay(rt: &tokio::runtime::Runtime, cases: &str, report: &str) {
                 }
                 if got_state != want_state {
                     // the faithful model (recovery replays only what is still in the log) predicts exactly this loss
-                    if json!(got_state) == h["mem"]["state"] { rep.known(&["C36"], "C36-recovery-replays-only-the-remaining-log", &format!("applied position {ap}, recovered commands {got_state:?}")); }
+                    // (the run then continues: real state and faithful model agree, so the rest of the history stays comparable)
+                    if json!(got_state) == h["mem"]["state"] { rep.known(&["C36"], "C36-recovery-replays-only-the-remaining-log", &format!("applied position {ap}, recovered commands {got_state:?}")); continue; }
                     else { rep.violation(&["C36"], "recovered state is not the state of the commands up to the recorded applied position", &json!({"case": small, "step": n + 1}), json!({"applied": ap, "state": want_state, "faithful_model": h["mem"]["state"]}), json!(got_state)); }
                     break;
                 }
